@@ -230,12 +230,14 @@ theorem enabler_cov (lik prior op : Op K (X → K)) (l ls ln : List (Matrix X X 
     (hop : sampler SS op true = .error "NotImplementedError")
     (hs : sampler SS prior true = .ok ls) (hn : sampler SS lik false = .ok ln)
     (h : samplerSE SS lik prior op false true = .ok l)
+    (hcapP : checkMode (cap prior) TIMES = true) (hcapL : checkMode (cap lik) TIMES = true)
+    (hcapO : checkMode (cap op) TIMES = true)
     (Pinv : Matrix X X K) (hcs : cov ls = Pinv) (hcn : cov ln = den S0 lik TIMES)
     (hP : den S0 prior TIMES * Pinv * (den S0 prior TIMES)ᴴ = den S0 prior TIMES)
     (hM : den S0 op TIMES = den S0 lik TIMES + den S0 prior TIMES)
     (hMinv : (den S0 op TIMES)⁻¹ * den S0 op TIMES = 1) (hMh : ((den S0 op TIMES)⁻¹)ᴴ = (den S0 op TIMES)⁻¹) :
     cov l = (den S0 op TIMES)⁻¹ := by
-  simp only [samplerSE, hop, hs, hn, Bool.not_true, Bool.false_eq_true, if_false] at h
+  simp only [samplerSE, hop, hs, hn, hcapP, hcapL, hcapO, Bool.not_true, Bool.false_eq_true, if_false, Bool.or_self] at h
   injection h with h
   subst h
   rw [cov_append]
